@@ -217,6 +217,7 @@ class FirstPickRNG(SymRNG):
     improving move): for each element e the order starting with e is explored."""
 
     symbolic_calls = None      # None: every shuffle symbolic; k: only the first k shuffles (identity afterwards)
+    scripted_first = None      # a concrete permutation used for the first shuffle of matching length (enumerated start arrangements)
 
     def _perm(self, n):
         if n <= 1:
@@ -227,6 +228,13 @@ class FirstPickRNG(SymRNG):
             return numpy.arange(n)
         c = sym.ctx()
         tag = self._tag("p")
+        if self.scripted_first is not None and len(self.scripted_first) == n and not self.__dict__.get("_scripted_done"):
+            self._scripted_done = True
+            names = ["%s_%d" % (tag, k) for k in range(n)]
+            for k in range(n):
+                c.assume(z3.Int(names[k]) == int(self.scripted_first[k]), internal=True)
+            self.draws.append(dict(kind="int", names=names, shape=(n,), stream=self.STREAM))
+            return numpy.array([int(v) for v in self.scripted_first], dtype=numpy.intp)
         s_ = z3.Int(tag + "_rot")
         c.assume(z3.And(s_ >= 0, s_ < n), internal=True)
         names = ["%s_%d" % (tag, k) for k in range(n)]
